@@ -9,6 +9,7 @@ package c09bitser
 import (
 	"fmt"
 	"math"
+	"math/bits"
 	"sort"
 
 	"github.com/pinealctx/neptune/bitmap1024"
@@ -300,14 +301,90 @@ type CaseMarshal struct {
 	Words []uint64 `json:"words"` // 16
 	// Later: bitmaps marshalled afterwards; every encoding handed out before must still hold its bytes then
 	Later [][]uint64 `json:"later,omitempty"`
+	// Deep: that many further Marshal calls follow (the bitmaps of Later and Words, their words rotated by the call index)
+	Deep int `json:"deep,omitempty"`
+	// Touch: members toggled in the bitmap after Marshal; the encoding must not follow
+	Touch []int `json:"touch,omitempty"`
+	// Scribble: the caller writes over every encoding it was handed (1: zeros, 2: 0xff, 3: inverted);
+	// neither the bitmaps nor later Marshal calls may notice
+	Scribble int `json:"scribble,omitempty"`
 }
+
+const maxDeep = 96
 
 func GenMarshal(t *rapid.T) CaseMarshal {
 	c := CaseMarshal{Words: genMembers(t, "m")}
 	for i, k := 0, rapid.SampledFrom([]int{0, 0, 1, 2, 3}).Draw(t, "later"); i < k; i++ {
 		c.Later = append(c.Later, genMembers(t, "later"))
 	}
+	deep := []int{0, 0, 0, 0, 0, 0, 0, 0, 0, 0, 0, 0, 1, 7, 8, 9, 12, 20}
+	if vkit.Tier() == "thorough" {
+		deep = append(deep, 33, 65, maxDeep)
+	}
+	c.Deep = rapid.SampledFrom(deep).Draw(t, "deep")
+	if rapid.IntRange(0, 2).Draw(t, "touches") == 0 {
+		var mem []int
+		for i, k := 0, rapid.IntRange(1, 3).Draw(t, "ntouch"); i < k; i++ {
+			kind := rapid.IntRange(0, 3).Draw(t, "tkind")
+			if kind == 0 && mem == nil {
+				mem = membersOfWords(c.Words)
+			}
+			switch {
+			case kind == 0 && len(mem) > 0: // a member: it is unset
+				c.Touch = append(c.Touch, rapid.SampledFrom(mem).Draw(t, "tmem"))
+			case kind == 1:
+				c.Touch = append(c.Touch, rapid.SampledFrom([]int{0, 1, 63, 64, 511, 512, 1022, 1023}).Draw(t, "tedge"))
+			default:
+				c.Touch = append(c.Touch, rapid.IntRange(0, blockBits-1).Draw(t, "tpos"))
+			}
+		}
+	}
+	c.Scribble = rapid.SampledFrom([]int{0, 0, 0, 1, 1, 2, 3}).Draw(t, "scribble")
 	return c
+}
+
+// denotes: "" when enc is an encoding of the bitmap ws under the documented format, else what is wrong
+// (word-wise twin of decodeFormat for the many encodings of the retention checks).
+func denotes(enc []byte, ws []uint64) string {
+	l := 0
+	for _, w := range ws {
+		l += bits.OnesCount64(w)
+	}
+	wantLen := 128
+	if l < 64 {
+		wantLen = 2 * l
+	}
+	if len(enc) != wantLen {
+		return fmt.Sprintf("%d members encoded in %d bytes, want %d", l, len(enc), wantLen)
+	}
+	var got [16]uint64
+	if wantLen == 128 {
+		for i := range enc {
+			got[i/8] |= uint64(enc[i]) << (8 * uint(i%8))
+		}
+	} else {
+		for i := 0; i < len(enc); i += 2 {
+			e := int(enc[i]) | int(enc[i+1])<<8
+			if e > 1023 {
+				return fmt.Sprintf("element %d outside 0..1023", e)
+			}
+			got[e/64] |= 1 << uint(e%64) // a duplicate leaves a member missing: the words differ
+		}
+	}
+	for i := range ws {
+		if got[i] != ws[i] {
+			return fmt.Sprintf("the bytes denote a bitmap whose word %d is %#x, the bitmap has %#x", i, got[i], ws[i])
+		}
+	}
+	return ""
+}
+
+func rotateWords(ws []uint64, by int) []uint64 {
+	out := make([]uint64, len(ws))
+	for i := range ws {
+		out[(i+by)%len(ws)] = ws[i]
+	}
+	return out
 }
 
 func ExecMarshal(c CaseMarshal) *vkit.Result {
@@ -360,30 +437,133 @@ func ExecMarshal(c CaseMarshal) *vkit.Result {
 	if string(keep) != string(enc) {
 		return res.Failf("Unmarshal/mutates-input", "Unmarshal changed its input")
 	}
+	// the encoding is a value of its own: changing the bitmap afterwards must not change the bytes handed out
+	cur := append([]uint64(nil), c.Words...)
+	touched := false
+	for _, p := range c.Touch {
+		if p < 0 || p >= blockBits {
+			continue
+		}
+		if cur[p/64]&(1<<uint(p%64)) != 0 {
+			b.UnsetI16(int16(p))
+		} else {
+			b.SetI16(int16(p))
+		}
+		cur[p/64] ^= 1 << uint(p%64)
+		touched = true
+	}
+	if touched {
+		res.Class("bitmap-modified-after-marshal")
+		if string(keep) != string(enc) {
+			return res.Failf("Marshal/aliases-bitmap", "the encoding of %d members (%d bytes) changed when the bitmap was modified after Marshal (members %v toggled): was %x, is %x", l, len(keep), c.Touch, keep, enc)
+		}
+		for i := range cur { // the model of the modified bitmap is only used if Set/Unset did what C08 says
+			cur[i] = uint64(b[i])
+		}
+	}
 	// the encoding belongs to the caller: later Marshal calls (of other bitmaps, of the same one) must leave it alone
 	type kept struct {
 		enc, copy []byte
 		words     []uint64
+		bm        bitmap1024.Bit1024
 	}
-	held := []kept{{enc, keep, c.Words}}
-	for _, w := range c.Later {
-		if len(w) != 16 || len(held) > 8 {
+	held := []kept{{enc, keep, c.Words, nil}}
+	marshalHeld := func(w []uint64, what string, k int) bool {
+		bm := toBit1024(w)
+		e := bm.Marshal()
+		if why := denotes(e, w); why != "" {
+			res.Failf("Marshal/content", "%d. %s bitmap: %s (encoding %x)", k, what, why, e)
+			return false
+		}
+		held = append(held, kept{e, append([]byte(nil), e...), w, bm})
+		return true
+	}
+	var pool [][]uint64
+	for i, w := range c.Later {
+		if len(w) != 16 || i >= 8 {
 			continue
 		}
-		e := toBit1024(w).Marshal()
-		held = append(held, kept{e, append([]byte(nil), e...), w})
+		pool = append(pool, w)
+		if !marshalHeld(w, "later", i+1) {
+			return res
+		}
+	}
+	pool = append(pool, c.Words)
+	deep := clampRange(c.Deep, 0, maxDeep)
+	for j := 0; j < deep; j++ {
+		if !marshalHeld(rotateWords(pool[j%len(pool)], j+1), "further", j+1) {
+			return res
+		}
+	}
+	if deep >= 8 {
+		res.Class("encodings-retained-across>=8-later-marshals")
+	}
+	if len(held) > 1 || touched {
+		// the bitmap itself once more, in its present state
+		if why := denotes(b.Marshal(), cur); why != "" {
+			return res.Failf("Marshal/content", "second Marshal of the bitmap (members %v toggled in between): %s", c.Touch, why)
+		}
 	}
 	if len(held) > 1 {
-		_ = b.Marshal()
 		res.Class("encodings-retained-across-later-marshals")
 		for i, h := range held {
 			if string(h.enc) != string(h.copy) {
-				return res.Failf("Marshal/retained", "the %d. encoding handed out by Marshal (%d bytes) changed after later Marshal calls: was %x, is %x", i+1, len(h.copy), h.copy, h.enc)
+				return res.Failf("Marshal/retained", "the %d. encoding handed out by Marshal (%d bytes) changed after %d later Marshal calls: was %x, is %x", i+1, len(h.copy), len(held)-i, h.copy, h.enc)
 			}
 			back := bitmap1024.NewBit1024()
 			if err := back.Unmarshal(h.enc); err != nil || !back.Equal(toBit1024(h.words)) {
 				return res.Failf("Marshal/retained", "the %d. encoding handed out by Marshal no longer decodes to its bitmap after later Marshal calls (err %v)", i+1, err)
 			}
+		}
+	}
+	// the caller may do with its bytes what it likes
+	if c.Scribble >= 1 && c.Scribble <= 3 && l > 0 {
+		res.Class("encodings-overwritten-by-the-caller")
+		for _, h := range held {
+			for i := range h.enc {
+				switch c.Scribble {
+				case 1:
+					h.enc[i] = 0
+				case 2:
+					h.enc[i] = 0xff
+				default:
+					h.enc[i] = ^h.enc[i]
+				}
+			}
+		}
+		func() {
+			for i := range cur {
+				if uint64(b[i]) != cur[i] {
+					res.Failf("Marshal/aliases-bitmap", "writing into the bytes Marshal returned (%d members, %d bytes) changed word %d of the bitmap: was %#x, is %#x", l, len(keep), i, cur[i], uint64(b[i]))
+					return
+				}
+			}
+			for k, h := range held[1:] {
+				for i := range h.words {
+					if uint64(h.bm[i]) != h.words[i] {
+						res.Failf("Marshal/aliases-bitmap", "writing into the bytes Marshal returned changed word %d of the %d. later bitmap: was %#x, is %#x", i, k+1, h.words[i], uint64(h.bm[i]))
+						return
+					}
+				}
+			}
+			// and a Marshal afterwards is as right as the first one
+			for k, h := range held {
+				if k > 4 {
+					break
+				}
+				e := toBit1024(h.words).Marshal()
+				if why := denotes(e, h.words); why != "" {
+					res.Failf("Marshal/after-overwrite", "Marshal of a bitmap with %d members after the caller wrote over the bytes of an earlier Marshal of the same bitmap: %s (encoding %x)", len(membersOfWords(h.words)), why, e)
+					return
+				}
+			}
+		}()
+		// put the bytes back: should they be shared with the library after all, the next case starts clean (replayable verdicts)
+		for _, h := range held {
+			copy(h.enc, h.copy)
+		}
+		if res.Fail != nil {
+			return res
 		}
 	}
 	res.NonTrivial = l > 0
@@ -395,6 +575,8 @@ func ExecMarshal(c CaseMarshal) *vkit.Result {
 
 type CaseBytes struct {
 	Data []byte `json:"data"`
+	// Start: block start handed to New...FromData together with Data
+	Start uint32 `json:"start,omitempty"`
 }
 
 var hostileElems = []int{0, 1, 63, 64, 1022, 1023, 1024, 1025, 0x7fff, 0x8000, 0xffff, 0xfc00, 0x0400, 0x03ff, 0xff03, 0x0004}
@@ -408,6 +590,12 @@ func encodeElems(es []int) []byte {
 }
 
 func GenBytes(t *rapid.T) CaseBytes {
+	c := genBytes(t)
+	c.Start = rapid.SampledFrom([]uint32{0, 0, 0, 1, 5, 1<<21 + 1, maxTipStart, maxTipStart + 1, 1<<22 + 5, math.MaxUint32 - 1}).Draw(t, "start")
+	return c
+}
+
+func genBytes(t *rapid.T) CaseBytes {
 	randBytes := func(n int, label string) []byte {
 		return rapid.SliceOfN(rapid.Byte(), n, n).Draw(t, label)
 	}
@@ -542,21 +730,64 @@ func ExecBytes(c CaseBytes) *vkit.Result {
 	if string(data) != string(c.Data) {
 		return res.Failf("Unmarshal/mutates-input", "Unmarshal changed its input %x", c.Data)
 	}
-	if err != nil {
+	switch {
+	case err != nil:
 		if d.must == "" && d.open == "" {
 			return res.Failf("Unmarshal/rejects-valid", "%d bytes %x denote a bitmap of %d members, Unmarshal failed: %v", n, c.Data, d.count, err)
 		}
 		res.Class("rejected")
+	case d.must != "":
+		return res.Failf("Unmarshal/accepts-invalid", "%d bytes %x denote no bitmap (%s), Unmarshal returned nil with %d members", n, c.Data, d.must, fresh.Len())
+	default:
+		if m, diff := diffSet(fresh, &d.set); diff {
+			return res.Failf("Unmarshal/set", "%d bytes %x denote %d members, Unmarshal produced %d members; membership of %d differs", n, c.Data, d.count, fresh.Len(), m)
+		}
+		res.Class("accepted")
+		res.NonTrivial = n > 0
+	}
+	// the block constructors take the same bytes: they fail exactly when Unmarshal does (bytes that denote
+	// nothing never give a block) and otherwise hold the denoted set under the given start
+	fromData := func(name string, berr error, isNil bool, start uint32, set bitmap1024.Bit1024) bool {
+		if (berr == nil) != (err == nil) {
+			what := "denote a bitmap of " + fmt.Sprint(d.count) + " members"
+			if d.must != "" {
+				what = "denote no bitmap (" + d.must + ")"
+			}
+			res.Failf(name+"/error", "%d bytes %x %s, Unmarshal returned %v, %s(%d, bytes) returned error %v", n, c.Data, what, err, name, c.Start, berr)
+			return false
+		}
+		if berr != nil {
+			return true
+		}
+		if isNil {
+			res.Failf(name+"/error", "%s(%d, %d bytes %x) returned nil, nil", name, c.Start, n, c.Data)
+			return false
+		}
+		if m, diff := diffSet(set, &d.set); diff || start != c.Start {
+			res.Failf(name+"/set", "%s(%d, %d bytes %x): block start %d with %d members, want start %d and the %d denoted members; membership of %d differs", name, c.Start, n, c.Data, start, set.Len(), c.Start, d.count, m)
+			return false
+		}
+		return true
+	}
+	big, berr := bitmap1024.NewBigU32FromData(c.Start, data)
+	if big == nil {
+		if !fromData("NewBigU32FromData", berr, true, 0, nil) {
+			return res
+		}
+	} else if !fromData("NewBigU32FromData", berr, false, big.Start, big.B1024) {
 		return res
 	}
-	if d.must != "" {
-		return res.Failf("Unmarshal/accepts-invalid", "%d bytes %x denote no bitmap (%s), Unmarshal returned nil with %d members", n, c.Data, d.must, fresh.Len())
+	tip, terr := bitmap1024.NewU32BitTipFromData(c.Start, data)
+	switch {
+	case c.Start > maxTipStart && terr != nil: // values of such a block do not fit uint32: an error is accepted whatever the bytes
+	case tip == nil:
+		fromData("NewU32BitTipFromData", terr, true, 0, nil)
+	default:
+		fromData("NewU32BitTipFromData", terr, false, tip.Start, tip.B1024)
 	}
-	if m, diff := diffSet(fresh, &d.set); diff {
-		return res.Failf("Unmarshal/set", "%d bytes %x denote %d members, Unmarshal produced %d members; membership of %d differs", n, c.Data, d.count, fresh.Len(), m)
+	if string(data) != string(c.Data) {
+		return res.Failf("Unmarshal/mutates-input", "New...FromData changed its input %x", c.Data)
 	}
-	res.Class("accepted")
-	res.NonTrivial = n > 0
 	return res
 }
 
@@ -591,11 +822,48 @@ func toI64[T uint32 | int64](s []T) []int64 {
 	return o
 }
 
-func opsBig(b *bitmap1024.BigU32) blockOps {
+// ledger keeps the lists handed out by GetN*/RGetN*: a returned list is the caller's, later
+// GetN calls (on the same block, on other blocks, on lists) must leave it as it was.
+type ledger struct {
+	held []func() string
+}
+
+func hold[T comparable](lg *ledger, site string, n int, s []T) []T {
+	if lg == nil || len(s) == 0 {
+		return s
+	}
+	cp := append([]T(nil), s...)
+	lg.held = append(lg.held, func() string {
+		for i := range cp {
+			if s[i] != cp[i] {
+				return fmt.Sprintf("the list of %d elements returned by %s(%d) changed after later GetN/RGetN calls: element %d was %v, is %v", len(cp), site, n, i, cp[i], s[i])
+			}
+		}
+		return ""
+	})
+	return s
+}
+
+func (lg *ledger) check(res *vkit.Result, ctx string) {
+	if res.Fail != nil {
+		return
+	}
+	for _, h := range lg.held {
+		if msg := h(); msg != "" {
+			res.Failf("GetN/retained", "%s %s", ctx, msg)
+			return
+		}
+	}
+	if len(lg.held) > 1 {
+		res.Class("lists-retained-across-later-GetN")
+	}
+}
+
+func opsBig(b *bitmap1024.BigU32, lg *ledger) blockOps {
 	return blockOps{
 		name: "BigU32", elem: "I64",
-		getN:  func(n int) []int64 { return b.GetNAsI64(n) },
-		rgetN: func(n int) []int64 { return b.RGetNAsI64(n) },
+		getN:  func(n int) []int64 { return hold(lg, "BigU32.GetNAsI64", n, b.GetNAsI64(n)) },
+		rgetN: func(n int) []int64 { return hold(lg, "BigU32.RGetNAsI64", n, b.RGetNAsI64(n)) },
 		iter: func(l, p, n int, sv int64) (int, []int64) {
 			s := fill(l, sv)
 			return b.IterAsI64(s, p, n), s
@@ -607,11 +875,11 @@ func opsBig(b *bitmap1024.BigU32) blockOps {
 	}
 }
 
-func opsTip(b *bitmap1024.U32BitTip) blockOps {
+func opsTip(b *bitmap1024.U32BitTip, lg *ledger) blockOps {
 	return blockOps{
 		name: "U32BitTip", elem: "U32",
-		getN:  func(n int) []int64 { return toI64(b.GetNAsU32(n)) },
-		rgetN: func(n int) []int64 { return toI64(b.RGetNAsU32(n)) },
+		getN:  func(n int) []int64 { return toI64(hold(lg, "U32BitTip.GetNAsU32", n, b.GetNAsU32(n))) },
+		rgetN: func(n int) []int64 { return toI64(hold(lg, "U32BitTip.RGetNAsU32", n, b.RGetNAsU32(n))) },
 		iter: func(l, p, n int, sv int64) (int, []int64) {
 			s := fill(l, uint32(sv))
 			return b.IterAsU32(s, p, n), toI64(s)
@@ -777,6 +1045,16 @@ type CaseBig struct {
 	ListN int     `json:"list_n"`
 	Pos   int     `json:"pos"`
 	Slack int     `json:"slack"`
+	// Empty: positions of the block list at which an empty block (built from no data) is inserted
+	Empty []int `json:"empty,omitempty"`
+}
+
+func genEmpty(t *rapid.T) []int {
+	var e []int
+	for i, k := 0, rapid.SampledFrom([]int{0, 0, 0, 1, 1, 2}).Draw(t, "nempty"); i < k; i++ {
+		e = append(e, rapid.IntRange(0, maxBlocks).Draw(t, "empty"))
+	}
+	return e
 }
 
 func inBig(v int64) bool { return v >= 0 && v < bigLimit }
@@ -845,6 +1123,7 @@ func GenBig(t *rapid.T) CaseBig {
 	c.ListN = genN(t, len(same)+len(c.More)/2, "ln")
 	c.Pos = rapid.IntRange(0, 3).Draw(t, "pos")
 	c.Slack = rapid.IntRange(0, 2).Draw(t, "slack")
+	c.Empty = genEmpty(t)
 	return c
 }
 
@@ -865,13 +1144,14 @@ func ExecBig(c CaseBig) *vkit.Result {
 		return res.Failf("NewBigU32FromI64/range", "NewBigU32FromI64(%d) returned nil, nil", c.V)
 	}
 	ctx := fmt.Sprintf("BigU32 from %d:", c.V)
+	lg := &ledger{}
 	// the fresh block iterates back to precisely that integer
 	for _, k := range []int{1, 3, n} {
 		if k < 1 {
 			continue
 		}
-		checkSeq(res, "BigU32.GetNAsI64", ctx+" fresh", b.GetNAsI64(k), []int64{c.V}, false, k)
-		checkSeq(res, "BigU32.RGetNAsI64", ctx+" fresh", b.RGetNAsI64(k), []int64{c.V}, true, k)
+		checkSeq(res, "BigU32.GetNAsI64", ctx+" fresh", hold(lg, "BigU32.GetNAsI64", k, b.GetNAsI64(k)), []int64{c.V}, false, k)
+		checkSeq(res, "BigU32.RGetNAsI64", ctx+" fresh", hold(lg, "BigU32.RGetNAsI64", k, b.RGetNAsI64(k)), []int64{c.V}, true, k)
 	}
 	if res.Fail != nil {
 		return res
@@ -933,19 +1213,47 @@ func ExecBig(c CaseBig) *vkit.Result {
 		if i > 0 {
 			bctx = fmt.Sprintf("%s side block %d:", ctx, o.m.start)
 		}
-		checkBlock(res, opsBig(o.obj), bctx, asc, n, pos, slack)
+		checkBlock(res, opsBig(o.obj, lg), bctx, asc, n, pos, slack)
 		lists = append(lists, asc)
 		objs = append(objs, o.obj)
 		total += len(asc)
+	}
+	// empty blocks (no data) anywhere in the list contribute nothing and end nothing
+	for k, e := range c.Empty {
+		if k >= 3 || res.Fail != nil {
+			break
+		}
+		eb, err := bitmap1024.NewBigU32FromData(uint32(main.start), nil)
+		if err != nil || eb == nil {
+			return res.Failf("NewBigU32FromData/rejects-marshal", "NewBigU32FromData(%d, no bytes) = %v, %v", main.start, eb, err)
+		}
+		checkSeq(res, "BigU32.GetNAsI64", ctx+" empty block", eb.GetNAsI64(2), nil, false, 2)
+		at := clampRange(e, 0, len(objs))
+		objs = append(objs[:at], append(bitmap1024.BigU32s{eb}, objs[at:]...)...)
+		lists = append(lists[:at], append([][]int64{nil}, lists[at:]...)...)
+		res.Class("list-with-empty-block")
 	}
 	for _, nn := range []int{ln, total + 1} {
 		if nn < 0 {
 			continue
 		}
-		lctx := fmt.Sprintf("%s list of %d blocks:", ctx, len(blocks))
-		checkConcat(res, "BigU32s.GetNAsI64", lctx, objs.GetNAsI64(nn), lists, false, nn)
-		checkConcat(res, "BigU32s.RGetNAsI64", lctx, objs.RGetNAsI64(nn), lists, true, nn)
+		lctx := fmt.Sprintf("%s list of %d blocks:", ctx, len(objs))
+		checkConcat(res, "BigU32s.GetNAsI64", lctx, hold(lg, "BigU32s.GetNAsI64", nn, objs.GetNAsI64(nn)), lists, false, nn)
+		checkConcat(res, "BigU32s.RGetNAsI64", lctx, hold(lg, "BigU32s.RGetNAsI64", nn, objs.RGetNAsI64(nn)), lists, true, nn)
 	}
+	// GetN calls on another block and on another list, then every list handed out so far is read again
+	dv := c.V + 5000
+	if !inBig(dv) {
+		dv = c.V - 5000
+	}
+	if other, err := bitmap1024.NewBigU32FromI64(dv); err == nil && other != nil && res.Fail == nil {
+		k := 1 // not above any earlier n: a buffer reused inside the library is reused for these calls as well
+		checkSeq(res, "BigU32.GetNAsI64", ctx+" other block", hold(lg, "BigU32.GetNAsI64", k, other.GetNAsI64(k)), []int64{dv}, false, k)
+		checkSeq(res, "BigU32.RGetNAsI64", ctx+" other block", hold(lg, "BigU32.RGetNAsI64", k, other.RGetNAsI64(k)), []int64{dv}, true, k)
+		checkSeq(res, "BigU32s.GetNAsI64", ctx+" other list", hold(lg, "BigU32s.GetNAsI64", k, bitmap1024.BigU32s{other}.GetNAsI64(k)), []int64{dv}, false, k)
+		checkSeq(res, "BigU32s.RGetNAsI64", ctx+" other list", hold(lg, "BigU32s.RGetNAsI64", k, bitmap1024.BigU32s{other}.RGetNAsI64(k)), []int64{dv}, true, k)
+	}
+	lg.check(res, ctx)
 	if c.V >= two32 {
 		res.Class("v>=2^32")
 		res.NonTrivial = true
@@ -976,6 +1284,8 @@ type CaseTip struct {
 	ListN int      `json:"list_n"`
 	Pos   int      `json:"pos"`
 	Slack int      `json:"slack"`
+	// Empty: positions of the block list at which an empty block (built from no data) is inserted
+	Empty []int `json:"empty,omitempty"`
 }
 
 var tipBoundaries = []uint32{0, 1, 1023, 1024, 1025, 2047, 2048, 1 << 31, 1<<31 - 1, 1<<31 + 1023, 1 << 22, 1<<22 - 1, 1<<22 + 5,
@@ -1029,6 +1339,7 @@ func GenTip(t *rapid.T) CaseTip {
 	c.ListN = genN(t, len(same)+len(c.More)/2, "ln")
 	c.Pos = rapid.IntRange(0, 3).Draw(t, "pos")
 	c.Slack = rapid.IntRange(0, 2).Draw(t, "slack")
+	c.Empty = genEmpty(t)
 	return c
 }
 
@@ -1041,12 +1352,13 @@ func ExecTip(c CaseTip) *vkit.Result {
 		return res.Failf("NewU32BitTipFromU32", "NewU32BitTipFromU32(%d) returned nil", c.V)
 	}
 	ctx := fmt.Sprintf("U32BitTip from %d:", c.V)
+	lg := &ledger{}
 	for _, k := range []int{1, 3, n} {
 		if k < 1 {
 			continue
 		}
-		checkSeq(res, "U32BitTip.GetNAsU32", ctx+" fresh", toI64(b.GetNAsU32(k)), []int64{int64(c.V)}, false, k)
-		checkSeq(res, "U32BitTip.RGetNAsU32", ctx+" fresh", toI64(b.RGetNAsU32(k)), []int64{int64(c.V)}, true, k)
+		checkSeq(res, "U32BitTip.GetNAsU32", ctx+" fresh", toI64(hold(lg, "U32BitTip.GetNAsU32", k, b.GetNAsU32(k))), []int64{int64(c.V)}, false, k)
+		checkSeq(res, "U32BitTip.RGetNAsU32", ctx+" fresh", toI64(hold(lg, "U32BitTip.RGetNAsU32", k, b.RGetNAsU32(k))), []int64{int64(c.V)}, true, k)
 	}
 	if res.Fail != nil {
 		return res
@@ -1101,19 +1413,48 @@ func ExecTip(c CaseTip) *vkit.Result {
 		if i > 0 {
 			bctx = fmt.Sprintf("%s side block %d:", ctx, o.m.start)
 		}
-		checkBlock(res, opsTip(o.obj), bctx, asc, n, pos, slack)
+		checkBlock(res, opsTip(o.obj, lg), bctx, asc, n, pos, slack)
 		lists = append(lists, asc)
 		objs = append(objs, o.obj)
 		total += len(asc)
+	}
+	// empty blocks (no data) anywhere in the list contribute nothing and end nothing
+	for k, e := range c.Empty {
+		if k >= 3 || res.Fail != nil {
+			break
+		}
+		eb, err := bitmap1024.NewU32BitTipFromData(uint32(main.start), nil)
+		if err != nil || eb == nil {
+			return res.Failf("NewU32BitTipFromData/rejects-marshal", "NewU32BitTipFromData(%d, no bytes) = %v, %v", main.start, eb, err)
+		}
+		checkSeq(res, "U32BitTip.GetNAsU32", ctx+" empty block", toI64(eb.GetNAsU32(2)), nil, false, 2)
+		at := clampRange(e, 0, len(objs))
+		objs = append(objs[:at], append(bitmap1024.U32BitTips{eb}, objs[at:]...)...)
+		lists = append(lists[:at], append([][]int64{nil}, lists[at:]...)...)
+		res.Class("list-with-empty-block")
 	}
 	for _, nn := range []int{ln, total + 1} {
 		if nn < 0 {
 			continue
 		}
-		lctx := fmt.Sprintf("%s list of %d blocks:", ctx, len(blocks))
-		checkConcat(res, "U32BitTips.GetNAsU32", lctx, toI64(objs.GetNAsU32(nn)), lists, false, nn)
-		checkConcat(res, "U32BitTips.RGetNAsU32", lctx, toI64(objs.RGetNAsU32(nn)), lists, true, nn)
+		lctx := fmt.Sprintf("%s list of %d blocks:", ctx, len(objs))
+		checkConcat(res, "U32BitTips.GetNAsU32", lctx, toI64(hold(lg, "U32BitTips.GetNAsU32", nn, objs.GetNAsU32(nn))), lists, false, nn)
+		checkConcat(res, "U32BitTips.RGetNAsU32", lctx, toI64(hold(lg, "U32BitTips.RGetNAsU32", nn, objs.RGetNAsU32(nn))), lists, true, nn)
 	}
+	// GetN calls on another block and on another list, then every list handed out so far is read again
+	if res.Fail == nil {
+		dv := c.V + 1<<31 + 3073 // wraps; never the block of V
+		other := bitmap1024.NewU32BitTipFromU32(dv)
+		if other == nil {
+			return res.Failf("NewU32BitTipFromU32", "NewU32BitTipFromU32(%d) returned nil", dv)
+		}
+		k := 1 // not above any earlier n: a buffer reused inside the library is reused for these calls as well
+		checkSeq(res, "U32BitTip.GetNAsU32", ctx+" other block", toI64(hold(lg, "U32BitTip.GetNAsU32", k, other.GetNAsU32(k))), []int64{int64(dv)}, false, k)
+		checkSeq(res, "U32BitTip.RGetNAsU32", ctx+" other block", toI64(hold(lg, "U32BitTip.RGetNAsU32", k, other.RGetNAsU32(k))), []int64{int64(dv)}, true, k)
+		checkSeq(res, "U32BitTips.GetNAsU32", ctx+" other list", toI64(hold(lg, "U32BitTips.GetNAsU32", k, bitmap1024.U32BitTips{other}.GetNAsU32(k))), []int64{int64(dv)}, false, k)
+		checkSeq(res, "U32BitTips.RGetNAsU32", ctx+" other list", toI64(hold(lg, "U32BitTips.RGetNAsU32", k, bitmap1024.U32BitTips{other}.RGetNAsU32(k))), []int64{int64(dv)}, true, k)
+	}
+	lg.check(res, ctx)
 	if len(main.mem) >= 2 {
 		res.Class("members>=2")
 		res.NonTrivial = true
@@ -1177,6 +1518,7 @@ func ExecData(c CaseData) *vkit.Result {
 	mem := membersOfWords(c.Words)
 	classCount(res, len(mem))
 	enc := toBit1024(c.Words).Marshal()
+	lg := &ledger{}
 	asc := make([]int64, len(mem))
 	for i, m := range mem {
 		asc[i] = int64(c.Start)*blockBits + int64(m)
@@ -1189,7 +1531,7 @@ func ExecData(c CaseData) *vkit.Result {
 	if c.Start == math.MaxUint32 {
 		res.Skip("BigU32 block start MaxUint32 lies outside the documented range: iteration not asserted")
 	} else {
-		checkBlock(res, opsBig(big), fmt.Sprintf("NewBigU32FromData(start=%d, %d members):", c.Start, len(mem)), asc, n, pos, slack)
+		checkBlock(res, opsBig(big, lg), fmt.Sprintf("NewBigU32FromData(start=%d, %d members):", c.Start, len(mem)), asc, n, pos, slack)
 	}
 	// U32BitTip: block starts 0..MaxUint32/1024 cover uint32; beyond that the values do not fit
 	tip, err := bitmap1024.NewU32BitTipFromData(c.Start, enc)
@@ -1198,12 +1540,22 @@ func ExecData(c CaseData) *vkit.Result {
 		if err != nil || tip == nil {
 			return res.Failf("NewU32BitTipFromData/rejects-marshal", "NewU32BitTipFromData(%d, Marshal of %d members) = %v, %v", c.Start, len(mem), tip, err)
 		}
-		checkBlock(res, opsTip(tip), fmt.Sprintf("NewU32BitTipFromData(start=%d, %d members):", c.Start, len(mem)), asc, n, pos, slack)
+		checkBlock(res, opsTip(tip, lg), fmt.Sprintf("NewU32BitTipFromData(start=%d, %d members):", c.Start, len(mem)), asc, n, pos, slack)
 		res.Class("tip-start-in-range")
 	case err != nil:
 		res.Class("tip-start-beyond-uint32-rejected")
 	default:
 		res.Skip("U32BitTip block start beyond MaxUint32/1024 accepted: iteration not asserted")
+	}
+	// GetN calls on other blocks, then the lists handed out so far are read again
+	if res.Fail == nil {
+		ob, _ := bitmap1024.NewBigU32FromData(c.Start^1, enc)
+		ot, _ := bitmap1024.NewU32BitTipFromData((c.Start^1)&maxTipStart, enc)
+		if ob != nil && ot != nil {
+			_, _ = ob.GetNAsI64(len(mem)+1), ob.RGetNAsI64(len(mem)+1)
+			_, _ = ot.GetNAsU32(len(mem)+1), ot.RGetNAsU32(len(mem)+1)
+		}
+		lg.check(res, fmt.Sprintf("New...FromData(start=%d, %d members):", c.Start, len(mem)))
 	}
 	if c.Start >= 1<<22 {
 		res.Class("start>=2^22")
@@ -1222,35 +1574,35 @@ func ExecData(c CaseData) *vkit.Result {
 
 var PartMarshal = &vkit.Part[CaseMarshal]{
 	Property: Property, Name: "marshal",
-	Rule:  "rapid: 1024-bit maps with exactly 0,1,2,62,63,64,65,1023,1024 members, runs of 62..128 at the block ends, full words +-1 member, random counts 0..130 and words from the C08 mixture. Marshal length must be 2*Len below 64 members, else 128; the bytes must denote the bitmap under a harness-side decoder written from the format description; Unmarshal into a fresh bitmap must be Equal (and bit-identical). Non-trivial: at least one member; distinct = distinct case JSON",
+	Rule:  "rapid: 1024-bit maps with exactly 0,1,2,62,63,64,65,1023,1024 members, runs of 62..128 at the block ends, full words +-1 member, random counts 0..130 and words from the C08 mixture. Marshal length must be 2*Len below 64 members, else 128; the bytes must denote the bitmap under a harness-side decoder written from the format description; Unmarshal into a fresh bitmap must be Equal (and bit-identical). The encoding is the caller's value: it keeps its bytes and still decodes to its bitmap after the bitmap is modified (1-3 members toggled in a third of the cases) and after 0-3 (a sixth of the cases: 7-20, thorough up to 96) later Marshal calls of other bitmaps; when the caller overwrites its encodings (zeros / 0xff / inverted, 4 of 7 cases) no bitmap changes and a new Marshal of the same bitmaps is right again. Non-trivial: at least one member; distinct = distinct case JSON",
 	Quick: 60000, Thorough: 200000,
 	Gen: GenMarshal, Exec: ExecMarshal,
 }
 
 var PartUnmarshal = &vkit.Part[CaseBytes]{
 	Property: Property, Name: "unmarshal",
-	Rule:  "rapid: byte strings of every length 0..130: random, lists of in-range elements, valid sparse encodings with one mutation (hostile element 1023/1024/-1/0x8000..., duplicate, swapped pair, dropped or appended byte, padded to 126/128/130 bytes), 128-byte bitmaps, constant fills. Unmarshal into a fresh bitmap must not panic; if the bytes denote no bitmap (odd, >128, element outside 0..1023) it must fail; if they denote one it must succeed with exactly that set (duplicates / non-ascending elements: failing is accepted too). Non-trivial: non-empty input accepted with the denoted set; distinct = distinct case JSON",
+	Rule:  "rapid: byte strings of every length 0..130: random, lists of in-range elements, valid sparse encodings with one mutation (hostile element 1023/1024/-1/0x8000..., duplicate, swapped pair, dropped or appended byte, padded to 126/128/130 bytes), 128-byte bitmaps, constant fills. Unmarshal into a fresh bitmap must not panic; if the bytes denote no bitmap (odd, >128, element outside 0..1023) it must fail; if they denote one it must succeed with exactly that set (duplicates / non-ascending elements: failing is accepted too). NewBigU32FromData / NewU32BitTipFromData(start, the same bytes) must fail exactly when Unmarshal does and otherwise hold the given start and the denoted set (U32BitTip start above MaxUint32/1024: an error is accepted). Non-trivial: non-empty input accepted with the denoted set; distinct = distinct case JSON",
 	Quick: 120000, Thorough: 400000,
 	Gen: GenBytes, Exec: ExecBytes,
 }
 
 var PartBig = &vkit.Part[CaseBig]{
 	Property: Property, Name: "bigu32",
-	Rule:  "rapid: int64 from boundaries (-1,0,1023,1024,2^32-1,2^32,2^32+5,2^41,(2^32-1)*1024-1,(2^32-1)*1024,MaxInt64,...) and ranges (half of them >= 2^32), then up to 10 further integers (same block, block edges, adjacent blocks, same bit with block start differing by k*2^22, far, unrepresentable). NewBigU32FromI64 accepts exactly [0,(2^32-1)*1024-1] and iterates back [v]; SetI64 accepts exactly members of the receiver's block; rejected representable integers build side blocks; every block's GetN/RGetN/Iter/RIter (n around Len, sentinel slices) is the ascending/descending list of what was accepted; the list type must concatenate per-block iteration (block order not asserted). Non-trivial: v >= 2^32 or >= 2 members in the block; distinct = distinct case JSON",
+	Rule:  "rapid: int64 from boundaries (-1,0,1023,1024,2^32-1,2^32,2^32+5,2^41,(2^32-1)*1024-1,(2^32-1)*1024,MaxInt64,...) and ranges (half of them >= 2^32), then up to 10 further integers (same block, block edges, adjacent blocks, same bit with block start differing by k*2^22, far, unrepresentable). NewBigU32FromI64 accepts exactly [0,(2^32-1)*1024-1] and iterates back [v]; SetI64 accepts exactly members of the receiver's block; rejected representable integers build side blocks; every block's GetN/RGetN/Iter/RIter (n around Len, sentinel slices) is the ascending/descending list of what was accepted; the list type must concatenate per-block iteration (block order not asserted), also with up to 2 empty blocks (built from no data) inserted anywhere in the list; every list returned by GetN/RGetN is kept and must read the same after all later GetN calls including calls on another block and another list. Non-trivial: v >= 2^32 or >= 2 members in the block; distinct = distinct case JSON",
 	Quick: 60000, Thorough: 200000,
 	Gen: GenBig, Exec: ExecBig,
 }
 
 var PartTip = &vkit.Part[CaseTip]{
 	Property: Property, Name: "u32bittip",
-	Rule:  "rapid: uint32 from boundaries (0,1023,1024,2^22,2^31,MaxUint32-1024..MaxUint32) and random, then up to 10 further integers (same block, edges, adjacent incl. wrap-around, far). NewU32BitTipFromU32 iterates back [v]; SetU32 accepts exactly members of the receiver's block; every block's GetN/RGetN/Iter/RIter is the ascending/descending list of what was accepted; the list type concatenates per-block iteration (block order not asserted). Non-trivial: >= 2 members in the block; distinct = distinct case JSON",
+	Rule:  "rapid: uint32 from boundaries (0,1023,1024,2^22,2^31,MaxUint32-1024..MaxUint32) and random, then up to 10 further integers (same block, edges, adjacent incl. wrap-around, far). NewU32BitTipFromU32 iterates back [v]; SetU32 accepts exactly members of the receiver's block; every block's GetN/RGetN/Iter/RIter is the ascending/descending list of what was accepted; the list type concatenates per-block iteration (block order not asserted), also with up to 2 empty blocks (built from no data) inserted anywhere in the list; every list returned by GetN/RGetN is kept and must read the same after all later GetN calls including calls on another block and another list. Non-trivial: >= 2 members in the block; distinct = distinct case JSON",
 	Quick: 60000, Thorough: 200000,
 	Gen: GenTip, Exec: ExecTip,
 }
 
 var PartData = &vkit.Part[CaseData]{
 	Property: Property, Name: "fromdata",
-	Rule:  "rapid: block start from boundaries (0, 2^22-1, 2^22, 2^31, MaxUint32-1, MaxUint32) and ranges x a bitmap from the member-count mixture. NewBigU32FromData / NewU32BitTipFromData(start, Marshal(b)) must succeed (U32BitTip: for start <= MaxUint32/1024; beyond that an error is accepted and nothing else asserted; BigU32 start MaxUint32: iteration not asserted) and iterate start*1024 + members(b) ascending / descending through all four entry points. Non-trivial: start >= 2^22 or >= 2 members; distinct = distinct case JSON",
+	Rule:  "rapid: block start from boundaries (0, 2^22-1, 2^22, 2^31, MaxUint32-1, MaxUint32) and ranges x a bitmap from the member-count mixture. NewBigU32FromData / NewU32BitTipFromData(start, Marshal(b)) must succeed (U32BitTip: for start <= MaxUint32/1024; beyond that an error is accepted and nothing else asserted; BigU32 start MaxUint32: iteration not asserted) and iterate start*1024 + members(b) ascending / descending through all four entry points; the lists returned are kept and read again after GetN calls on other blocks. Non-trivial: start >= 2^22 or >= 2 members; distinct = distinct case JSON",
 	Quick: 30000, Thorough: 100000,
 	Gen: GenData, Exec: ExecData,
 }
